@@ -87,6 +87,7 @@ class Resolver:
         self.by_unique_name = []
         self._lambda_funcs = {}
         self.cur_self = None  # receiver class context (set by EscapeAnalysis)
+        self._infer_stack = set()
 
     # ---- class of `self` for a function (methods and functions nested in methods)
     def self_class(self, fi):
@@ -188,6 +189,16 @@ class Resolver:
         """Set of package class qns the expression may evaluate to."""
         if depth > 4:
             return set()
+        key = (fi.qn, id(e))
+        if key in self._infer_stack or len(self._infer_stack) > 40:
+            return set()
+        self._infer_stack.add(key)
+        try:
+            return self._infer(fi, e, depth)
+        finally:
+            self._infer_stack.discard(key)
+
+    def _infer(self, fi, e, depth=0):
         txt = chain(e) or ""
         hk = (fi.short, txt)
         if hk in self.hints:
@@ -298,7 +309,7 @@ class Resolver:
         return out
 
     def resolve_callees(self, fi, call):
-        """-> (list of FuncInfo, kind) where kind in
+        """-> (list of (FuncInfo, receiver class qn or None), kind) where kind in
         'resolved' | 'class' | 'external:<name>' | 'builtin-method' | 'unresolved'"""
         f = call.func
         prog = self.prog
@@ -997,6 +1008,8 @@ class EscapeAnalysis:
         if kind.startswith("external:"):
             name = kind[9:]
             self.external_calls[name] = self.external_calls.get(name, 0) + 1
+            if name in ("urllib.parse.unquote", "urllib.parse.unquote_plus") and any(k.arg == "errors" and isinstance(k.value, ast.Constant) and k.value.value == "strict" for k in call.keywords):
+                out.add(Esc("UnicodeDecodeError", fi.short, call.lineno, stmt_text(call, 80)))
             for cls in self.ext.get(name, []):
                 out.add(Esc(cls, fi.short, call.lineno, stmt_text(call, 80)))
             # closed Enum construction handled by the caller rule (needs class info) -- see enum_ctor
